@@ -188,6 +188,21 @@ def gen_ops(ctx):
             if 0 <= ix <= w - 1 and 0 <= iy <= h - 1 and abs(P[0] * P[3] - P[1] * P[2]) > Fr(1, 20): break
         else: continue
         ops.append("rescs %s %s %d %d %d %d %d %s" % (vt, smp, w, h, dw, dh, n, " ".join(str(x) for m in ms for x in m)))
+    # --- resample_subimage itself (so far only reached through resize_view, angle 0): sub-rectangles, rotation angles, both samplers
+    for i in range(400 if th else 64):
+        vt, smp = VT[i % len(VT)], "bn"[(i // len(VT)) % 2]
+        w, h, dw, dh = r.range(1, 7), r.range(1, 7), r.range(1, 8), r.range(1, 8)
+        x1, y1 = rnd(-0.5, w / 2.0), rnd(-0.5, h / 2.0)
+        if i % 4 == 0: x1, y1 = float(r.range(0, w - 1)), float(r.range(0, h - 1))
+        x2, y2 = x1 + rnd(0.5, w + 1.0), y1 + rnd(0.5, h + 1.0)
+        if i % 4 == 0: x2, y2 = float(r.range(int(x1) + 1, w + 1)), float(r.range(int(y1) + 1, h + 1))
+        ang = [0.0, math.pi / 2, -math.pi / 2, math.pi, 0.3, -1.1, 2.5][i % 7] if i % 3 else rnd(-3.2, 3.2)
+        if i % 4 == 2:      # both centres are pixels: odd destination, rectangle centre at integer coordinates inside the source (clause subimage-centre)
+            w, h, dw, dh = r.range(3, 7), r.range(3, 7), r.choice([3, 5, 7]), r.choice([3, 5, 7])
+            cx, cy = r.range(0, w - 1), r.range(0, h - 1)
+            hx, hy = r.range(1, 3), r.range(1, 3)
+            x1, y1, x2, y2 = float(cx - hx), float(cy - hy), float(cx + hx + 1), float(cy + hy + 1)
+        ops.append("rsub %s %s %d %d %d %d %s" % (vt, smp, w, h, dw, dh, " ".join(map(bits, [x1, y1, x2, y2, ang]))))
     # --- round trip at pixel level: unimodular INTEGER maps composed with *= (quarter turns, flips, shears, integer translations), nearest neighbour forward,
     #     then inverse(m) backward: every source pixel whose preimage lies in the intermediate image must come back
     UNI = [[0, 1, -1, 0], [0, -1, 1, 0], [-1, 0, 0, -1], [1, 1, 0, 1], [1, 0, 1, 1], [1, -1, 0, 1], [-1, 0, 0, 1], [1, 0, 0, -1], [2, 1, 1, 1], [1, 2, 1, 3], [0, 1, 1, 0]]
@@ -239,7 +254,7 @@ def nontrivial(op):
 def points_of(op):
     w = op.split()
     if w[0] in ("bil", "near", "tap"): return int(w[8])
-    if w[0] in ("res", "rsz", "resf", "resg", "resc", "rescs", "resmf"): return int(w[5]) * int(w[6])
+    if w[0] in ("res", "rsz", "rsub", "resf", "resg", "resc", "rescs", "resmf"): return int(w[5]) * int(w[6])
     if w[0] == "resrt": return int(w[2]) * int(w[3]) + int(w[4]) * int(w[5])
     if w[0] == "bilc": return (len(w) - 7) // 2
     return 1
@@ -304,7 +319,7 @@ def run(ctx, ops=None):
     return vlib.finish(ctx, "proof", obligations, discharged,
         rule="op lines: both samplers on a coordinate-recording virtual view over the complete 1/8-pixel grid of [-2,w+1]x[-2,h+1] for 19 source shapes from 1x1 (every row), "
              "values on 8 view kinds (gray8 complete grid, both point types; the others every third row) and on 1, 1/2, 1/4 grids; resample_pixels with random affine maps with entries k/8 "
-             "(library loop vs direct sample() loop vs model); resample_pixels with random rotation-scale-translation double matrices and with non-dyadic scale/translate double and float matrices whose images hit integer / half-integer source boundaries, incl. long float rows (model repeats the IEEE operations); bilinear on constant / two-level sources at off-grid float and double points (Float32 / Float replay); resize_view same size and other sizes; matrix3x2<double> product / associativity / inverse / transform / round trip / generators on random "
+             "(library loop vs direct sample() loop vs model); resample_pixels with random rotation-scale-translation double matrices and with non-dyadic scale/translate double and float matrices whose images hit integer / half-integer source boundaries, incl. long float rows (model repeats the IEEE operations); bilinear on constant / two-level sources at off-grid float and double points (Float32 / Float replay); resize_view same size and other sizes; resample_subimage with sub-rectangles and rotation angles; matrix3x2<double> product / associativity / inverse / transform / round trip / generators on random "
              "well-conditioned matrices (bit patterns); the compound operator*= (mmuleq, chains mseq from the default-constructed identity, self multiplication m *= m), operator*(point, matrix) with double and integer points, "
              "the point overloads of get_translate / get_scale, center_rotate, matrix3x2<long> product / *= / self (iop), resample_pixels through maps composed step by step with *= "
              "(resc: entries k/8, Spec judged exactly at transform(M1*..*Mn,(x,y)); rescs: followed by m *= m; resmf: double matrices; resrt: unimodular integer maps, forward then inverse(m) backward, every pixel must come back), matrix3x2<float> product / *= / self / inverse / transform (fop). non-trivial = grid row that crosses the view, non-identity map, any matrix op (distinct op lines counted)",
